@@ -253,6 +253,21 @@ theorem update_empty_is_identity (p : Sha) : Sha256Body.update p [] = p ∧ upda
   refine ⟨?_, rfl⟩
   rw [gen_update_eq]; rfl
 
+/-- chunk boundaries leave no trace in the OBJECT (stronger than equal digests, and for EVERY object state `p`, reachable or
+not, with any `count`, buffer content and ghost flag): feeding `a` and then `b` leaves exactly the object that feeding `a ++ b`
+leaves - same chaining value, same 64-bit counter, same buffer bytes (stale tail included), same ghost flag; hence any chunking of
+a message leaves the object of the single call, for the model functions and for the bodies translated from the sources.  The
+resumption point of the second call is re-derived from `count` alone (`(UInt32)count & 0x3F`), which is why no hypothesis on `p`
+is needed. -/
+theorem chunking_leaves_no_trace (p : Sha) (a b : List UInt8) (chunks : List (List UInt8)) :
+    update (update p a) b = update p (a ++ b) ∧
+    Sha256Body.update (Sha256Body.update p a) b = Sha256Body.update p (a ++ b) ∧
+    chunks.foldl update p = update p chunks.flatten ∧
+    chunks.foldl Sha256Body.update p = Sha256Body.update p chunks.flatten := by
+  have hu : Sha256Body.update = update := funext fun p => funext fun d => gen_update_eq p d
+  rw [hu]
+  exact ⟨update_update p a b, update_update p a b, foldl_update_flatten chunks p, foldl_update_flatten chunks p⟩
+
 /-! ### non-vacuity: the hypotheses are met by concrete non-trivial inputs -/
 
 example : ([[0x61], [], [0x62, 0x63]] : List (List UInt8)).flatten.length < 2 ^ 61 := by decide
@@ -264,5 +279,8 @@ example : Sha256.H0.length = 8 ∧ (data32 (List.replicate 64 0)).length = 16 :=
 example : ∃ st0 : Sha256U2.RS, st0.W.length = 16 ∧ st0.state.length = 8 ∧ st0.ok = true ∧ st0.a = 7 :=
   ⟨{ W := List.replicate 16 5, state := Sha256.H0, a := 7, b := 1, c := 2, d := 3, e := 4, f := 5, g := 6, h := 9, ok := true },
    by decide, by decide, rfl, rfl⟩
+
+example : update (update init [1, 2]) (List.replicate 70 3) = update init ([1, 2] ++ List.replicate 70 3) :=
+  (chunking_leaves_no_trace init [1, 2] (List.replicate 70 3) []).1
 
 end Nstd.Sha
